@@ -87,8 +87,13 @@ class SpyDecoder:
         self._inner = inner
         self.calls = []
 
+    interrupt_at = None      # index of the decode call during which the user presses Ctrl-C (once)
+
     def decode(self, syndrome, **kw):
         s = [int(x) for x in syndrome]
+        if self.interrupt_at is not None and len(self.calls) == self.interrupt_at:
+            self.interrupt_at = None
+            raise KeyboardInterrupt()
         try:
             c = self._inner.decode(syndrome, **kw)
         except Exception as e:  # noqa
@@ -521,9 +526,17 @@ def check_case(case):
             spy = dec
             sim = DirectSimulation(code, em, spy, p, verbose=False, rng=np.random.default_rng(case['seed']))
             total = 0
+            if case.get('interrupt_at') is not None:
+                spy.interrupt_at = int(case['interrupt_at'])
             for k in case['runs']:
-                sim.run(k)
-                total += k
+                before = len(spy.calls)
+                try:
+                    sim.run(k)
+                    total += k
+                except KeyboardInterrupt:
+                    # a run interrupted inside a trial: the finished trials stay, the unfinished one leaves
+                    # no trace; the object must be consistent and resumable
+                    total += len(spy.calls) - before
                 res = sim.results
                 lens = (len(res['effective_error']), len(res['success']), len(res['codespace']))
                 if res['n_runs'] != total or lens != (total,) * 3:
@@ -639,6 +652,9 @@ def oracle_cases(ctx, deep):
             cases.append({'kind': 'record', 'combo': combo, 'seed': int(rng.integers(0, 2 ** 31))})
         runs = [int(x) for x in rng.integers(0, 4, int(rng.integers(1, 5)))]
         cases.append({'kind': 'history', 'combo': combo, 'seed': int(rng.integers(0, 2 ** 31)), 'runs': runs})
+        runs2 = [int(x) for x in rng.integers(1, 5, 3)]
+        cases.append({'kind': 'history', 'combo': combo, 'seed': int(rng.integers(0, 2 ** 31)), 'runs': runs2,
+                      'interrupt_at': int(rng.integers(0, sum(runs2[:2])))})
         cases.append({'kind': 'same-seed', 'combo': combo, 'seed': int(rng.integers(0, 2 ** 31)),
                       'runs': [2, 1]})
     for combo in usable[:4]:
